@@ -18,7 +18,7 @@ import signal
 import sys
 import time
 
-STEP_TIMEOUT = 45
+STEP_TIMEOUT = 10          # a handshake with the witness takes well under a second; a step that hangs is an observation, not a reason to wait
 
 
 class StepTimeout(BaseException):
